@@ -61,6 +61,7 @@ def threshold_cmps(rng):
         [ModelFieldsEquals()],
         [ModelFieldsPercentMatch(.95)], [ModelFieldsPercentMatch(float("69") / 100)], [ModelFieldsPercentMatch(float("71") / 100)],
         [ModelFieldsPercentMatch(1 / 3)], [ModelFieldsNumberMatch(3)], [ModelFieldsNumberMatch(1)],
+        [ModelFieldsNumberMatch(10)], [ModelFieldsNumberMatch(5)], [ModelFieldsNumberMatch(25)],
         [ModelFieldsEquals(), ModelFieldsNumberMatch(4)],
     ])
 
@@ -101,8 +102,20 @@ def check_registry(inputs, cmps, registry):
     order = [m.index for m in reg.models]
     models = list(reg.models)
     uf = UF(order)
+    def similar(a, b):
+        """the configured relation itself: at least one comparator holds on the original key sets"""
+        fa, fb = set(a.type.keys()), set(b.type.keys())
+        for c in (cmps or ModelRegistry.DEFAULT_MODELS_CMP):
+            if isinstance(c, stages.TableCmp):
+                ka, kb = next(iter(a.type.keys()), ""), next(iter(b.type.keys()), "")
+                if (ka, kb) in c.edges:
+                    return True
+            elif c.cmp(fa, fb):
+                return True
+        return False
+
     for a, b in itertools.combinations(models, 2):
-        if reg._models_cmp_fn(a, b):
+        if similar(a, b):
             uf.union(a.index, b.index)
     comps = {}
     for i in order:
@@ -165,6 +178,10 @@ def falsify(ctx):
     rng = ctx.rng("fals")
     registry = stages.make_registry()
     cases = []
+    from ..worker import cmps_from
+    for m in ctx.focus:          # inputs on which model and implementation disagreed come first
+        if m and "inputs" in m and m.get("cmps"):
+            cases.append(([tuple(x) for x in m["inputs"]], cmps_from(m["cmps"]), True))
     for n in range(0, 6):
         for edges in tables(n):
             if n == 5 and ctx.tier == "quick" and rng.random() > 0.1:
